@@ -3,7 +3,7 @@
 cd "$(dirname "$0")/.."
 for s in $1; do
   for c in $(cat harness/props/ENABLED); do
-    out=$(VERIF_SEED=$s VERIF_EVIDENCE_DIR=/tmp/sweep-evidence ./check $c --tier ${2:-quick} 2>&1); code=$?
+    out=$(VERIF_SEED=$s VERIF_EVIDENCE_DIR=/tmp/sweep-evidence flock /tmp/verif-gen.lock ./check $c --tier ${2:-quick} 2>&1); code=$?
     echo "seed=$s $c exit=$code $(echo "$out" | tail -1)"
     [ $code -ne 0 ] && echo "$out" | grep -v "^\[" | head -8
   done
